@@ -62,10 +62,12 @@ func drawCase(t *rapid.T) Case {
 		c.WrapAt = rapid.IntRange(0, 7).Draw(t, "wrapat")
 	}
 	if rapid.IntRange(0, 9).Draw(t, "rawdata") == 0 {
-		a := uint64(rapid.IntRange(0, 3).Draw(t, "d0"))
+		// 0-3: a MockOp of that value; 9: channel.NoData()
+		vals := []uint64{0, 1, 2, 3, 9}
+		a := rapid.SampledFrom(vals).Draw(t, "d0")
 		b := a
 		if rapid.Bool().Draw(t, "ddiff") {
-			b = uint64(rapid.IntRange(0, 3).Draw(t, "d1"))
+			b = rapid.SampledFrom(vals).Draw(t, "d1")
 		}
 		c.RawData = &[2]uint64{a, b}
 	}
@@ -112,7 +114,16 @@ func runCase(c Case) *h.Outcome {
 		v, w := c.V.Build(), ws.Build()
 		if c.RawData != nil {
 			v.App, w.App = channel.NoApp(), channel.NoApp()
-			v.Data, w.Data = channel.NewMockOp(channel.MockOp(c.RawData[0])), channel.NewMockOp(channel.MockOp(c.RawData[1]))
+			rawData := func(d uint64) channel.Data {
+				if d == 9 {
+					return channel.NoData()
+				}
+				return channel.NewMockOp(channel.MockOp(d))
+			}
+			v.Data, w.Data = rawData(c.RawData[0]), rawData(c.RawData[1])
+			if (c.RawData[0] == 9) != (c.RawData[1] == 9) {
+				o.Class("data-vs-no-data")
+			}
 			if c.RawData[0] != c.RawData[1] {
 				o.Class("app-less-states-with-different-data")
 			} else {
@@ -245,7 +256,7 @@ func runCase(c Case) *h.Outcome {
 	return o
 }
 
-const rule = "pairs (v,w) of valid states: w = v with one (10%: two) single-field mutations from the 27-kind alphabet of gen/mutate.go (id, version, final flag, app, data, one balance, one asset, one backend id, locked id/amount/index-map entry/length, nil-vs-empty index map, dimensions, swaps) or an independent state; in a tenth of the pairs both states are app-less and carry (equal or different) data; oracle: Equal==nil <=> identical native encodings for State, Allocation, Balances, SubAlloc (both argument orders) and the helper comparisons; Verify(signer, w, Sign(signer, v)) <=> identical encodings; never verifies for another key. non-trivial = exactly one applicable mutation that changed the encoding (or the nil/empty index map neutral mutation); distinct by SHA-256 of the canonical case JSON"
+const rule = "pairs (v,w) of valid states: w = v with one (10%: two) single-field mutations from the 27-kind alphabet of gen/mutate.go (id, version, final flag, app, data, one balance, one asset, one backend id, locked id/amount/index-map entry/length, nil-vs-empty index map, dimensions, swaps) or an independent state; in a tenth of the pairs both states are app-less and carry (equal or different) data or no data; oracle: Equal==nil <=> identical native encodings for State, Allocation, Balances, SubAlloc (both argument orders) and the helper comparisons; Verify(signer, w, Sign(signer, v)) <=> identical encodings; never verifies for another key. non-trivial = exactly one applicable mutation that changed the encoding (or the nil/empty index map neutral mutation); distinct by SHA-256 of the canonical case JSON"
 
 func TestEqualEncoding(t *testing.T) {
 	rec := h.Begin("C15", "")
